@@ -211,6 +211,9 @@ def child_main(job, d, result_path):
         ini, ods, outdir, rowmaps = prepare(job, d)
         if job.get("mode", "fork") != "fork":
             os.chdir(d)  # (a forked child stays in the worker's directory, where rp2.logger created ./log at import)
+            for name, content in job.get("cwd_files", {}).items():
+                with open(os.path.join(d, name), "w", encoding="utf-8") as f:
+                    f.write(content)
         import logging  # pylint: disable=import-outside-toplevel
 
         errors = res["errors"]
@@ -245,8 +248,8 @@ def child_main(job, d, result_path):
         cap = _Capture()
         if "computed" in job.get("observe", []) or "docs" in job.get("observe", []):
             cap.install()
-        mod = import_module(ENTRY[job["country"]][0])
         try:
+            mod = import_module(ENTRY[job["country"]][0])
             mod.rp2_entry()
             res["exit"] = 0
         except SystemExit as exc:
